@@ -155,7 +155,11 @@ def ill_conditioned(case):
             qa = qa / abs(qa) if abs(qa) > 0 else 0.0
             qb = qb / abs(qb) if abs(qb) > 0 else 0.0
         tot += (complex(qa).conjugate() * qb).real
-        scale += abs(qa) * abs(qb)
+        if case["est"] == "EP":
+            scale += 1.0
+        else:
+            scale += sum(abs(wt(P)) for P in ev if P.pseudorapidity() >= case["gap"]) * \
+                sum(abs(wt(P)) for P in ev if P.pseudorapidity() < -case["gap"])
     return abs(tot) <= 1e-7 * (scale + 1e-300)
 
 
@@ -243,7 +247,7 @@ def oracle(case):
     pr = call(case, mk_events(fl, n), mk_events(rf, n) if rf is not None else None)
     v2, e2 = split(case, pr)
     vb, eb = split(case, base)
-    if not ill_conditioned(case) and not (same(vb, v2) and (eb is None or errs_same(eb, e2))):
+    if not degenerate(case) and not ill_conditioned(case) and not (same(vb, v2) and (eb is None or errs_same(eb, e2))):
         return (f"{case['est']} {case['mode']}: reordering particles within events and events changes the result: "
                 f"{base} -> {pr}")
     # 3. reaction plane: weighted mean of exp(i n phi)
